@@ -25,6 +25,7 @@ META = {
 }
 REQUIRED = ["kw_map_injective", "kw_map_covers_shared_keywords", "kw_map_total", "kw_lookup_separates_modes",
             "kw_texts_distinct", "selector_fullwidth_is_period", "punct_mode_independent", "consumer_clauses_closed",
+            "builtin_name_clauses_closed",
             "universe_map_bijective_on_shared", "doc_pairs_verdict", "doc_pairs_agree_iff", "backend_pairs_verdict",
             "wz_english_names_verdict"]
 
@@ -195,6 +196,8 @@ def run(ctx):
     tabs = c09_tables.write_lean(doc, gen_path)
     zmap = zh_name_map(tabs)
     # ---- 2. prove
+    for oc in tabs["open_builtin_clauses"]:
+        ctx.proof["broken"].append({"theorem": "builtin_name_clauses_closed", "why": "English and Chinese builtin names are not listed side by side: " + oc})
     ctx.prove(required=REQUIRED)
     model = ctx.build_model("c09")
 
@@ -221,6 +224,9 @@ def run(ctx):
     cases = []                           # dict(kind, key, wa, wz, features)
     for key, (wa, wz) in PROBES:
         cases.append({"kind": "probe", "key": key, "wa": wa, "wz": wz})
+    for key, decls in R.builtin_matrix():        # every builtin x every argument kind, both syntaxes
+        cases.append({"kind": "probe", "key": key, "wa": R.render(decls, "wa", random.Random(1)),
+                      "wz": R.render(decls, "wz", random.Random(1))})
     cdir = os.path.join(os.path.dirname(os.path.dirname(os.path.abspath(__file__))), "corpus", "C09")
     if os.path.isdir(cdir):
         for fn in sorted(os.listdir(cdir)):
@@ -251,7 +257,8 @@ def run(ctx):
     ops = []
     for c in cases:
         ops += ["ast wa " + hx(c["wa"]), "ast wz " + hx(c["wz"]), "tc prog.wa " + hx(c["wa"]), "tc prog.wz " + hx(c["wz"])]
-    res = run_ops(h, ops, workers=12)
+    hexed = lambda r: ("panic " + hx(r)) if r and r.startswith("PANIC") else r     # a recovered Go panic: keep the text, hex like the others
+    res = [hexed(r) for r in run_ops(h, ops, workers=12)]
     for c, k in zip(cases, range(0, len(ops), 4)):
         c["ast"] = (res[k], res[k + 1])
         c["tc"] = (res[k + 2], res[k + 3])
@@ -261,7 +268,7 @@ def run(ctx):
         if c["kind"] in ("probe", "gen", "corpus", "boolprint") and c["tc"][0] == "ok" and c["tc"][1] == "ok":
             runidx.append(i)
             runops += ["run prog.wa " + hx(c["wa"]), "run prog.wz " + hx(c["wz"])]
-    rres = run_ops(h, runops, workers=12)
+    rres = [hexed(r) for r in run_ops(h, runops, workers=12)]
     for j, i in enumerate(runidx):
         cases[i]["run"] = (rres[2 * j], rres[2 * j + 1])
 
@@ -279,7 +286,7 @@ def run(ctx):
             ctx.proof["broken"].append({"theorem": "wamodel_c09", "why": "model answered %d lines for %d ops" % (len(ml), len(mops))})
         else:
             # correspondence: the model's evaluation of the tables vs the generator's (python) evaluation
-            want_props = "inj=true cover=true total=true lookup=true texts=true punct=true sel=true clauses=true uinj=true utotal=true uone=true"
+            want_props = "inj=true cover=true total=true lookup=true texts=true punct=true sel=true clauses=true bclauses=true uinj=true utotal=true uone=true"
             want_mis = "doc=%s backend=%s wzen=%s" % (",".join("%s/%s" % p for p in tabs["doc_mismatch"]),
                                                       ",".join("%s/%s" % p for p in tabs["backend_mismatch"]),
                                                       ",".join(tabs["wzen_mismatch"]))
@@ -301,8 +308,9 @@ def run(ctx):
         a_wa, a_wz = c["ast"]
         t_wa, t_wz = c["tc"]
         for nm, r in (("ast-wa", a_wa), ("ast-wz", a_wz), ("tc-wa", t_wa), ("tc-wz", t_wz)):
-            if r is None or r.startswith(("PANIC", "crash", "bad-op")):
-                ctx.violation("front-end-crash:" + nm, "%s on %s: %s" % (nm, c["key"], (r or "")[:200]), replay)
+            if r is None or r.startswith(("panic", "crash", "bad-op")):
+                txt = unhx(r.split()[1]) if r and len(r.split()) > 1 else str(r)
+                ctx.violation("front-end-crash:%s:%s" % (nm, cause_of(txt)), "%s on %s: %s" % (nm, c["key"], txt[:300]), replay)
         if c["kind"] == "confirm":
             confirmed[c["key"][8:]] = (t_wa, t_wz)
             continue
@@ -398,16 +406,17 @@ def run(ctx):
     cov = {
         "evaluations": len(ops) + len(runops),
         "distinct_nontrivial": len(nontrivial),
-        "rule": "one case = one program AST rendered to .wa and .wz: %d per-keyword/predeclared probes, %d generated well-typed programs, "
+        "rule": "one case = one program AST rendered to .wa and .wz: %d per-keyword/predeclared probes + %d builtin x argument-kind programs, %d generated well-typed programs, "
                 "%d deliberately ill-typed/ill-formed variants (%d kinds); each case: both parsers' trees compared after the Lean normaliser, "
                 "LoadProgramFile verdict + diagnostic class (line, message with Chinese names mapped), RunCode output bytes; "
                 "distinct_nontrivial = distinct (kind, feature set | key, outcome) classes" % (
-                    len(PROBES), n_prog, n_ill * len(R.ILL), len(R.ILL)),
+                    len(PROBES), len(R.builtin_matrix()), n_prog, n_ill * len(R.ILL), len(R.ILL)),
         "samples": samples,
         "distribution": dist,
         "tables": {"zh_keywords": len(tabs["zh_rows"]), "en_keywords": len(tabs["en"]), "wz_chinese_names": len(tabs["tabs"]["wzZh"]),
                    "wa_english_names": len(tabs["tabs"]["waEn"]), "doc_pairs": len(tabs["doc_pairs"]),
                    "backend_pairs": len(tabs["backend_pairs"]), "consumer_clauses": len(tabs["clauses"]),
+                   "k_name_clauses": len(tabs["k_clauses"]), "builtin_pairs": len(tabs["builtin_pairs"]),
                    "punct_rows": len(doc["punct"])},
         "english_synonyms_per_chinese_name": "int32/i32, float64/f64, ... : English has several names per basic kind; the bijection is onto objects",
         "english_objects_without_chinese_name": tabs["english_without_chinese"],
